@@ -147,10 +147,11 @@ def main(run):
     lat = [p for p in lattice.prec_lattice(tier) if p["family"] in ("F-prec", "F-choice", "F-nest")]
     if tier == "quick":
         items = lat[::25] + ktree.generate(run.seed + 4100, 8)
-        maxlen, cap = 3, 350
+        maxlen, cap, nwalk = 3, 350, 12
     else:
         items = lat[::3] + ktree.generate(run.seed + 4100, 150)
-        maxlen, cap = 3, 3000
+        maxlen, cap, nwalk = 3, 3000, 150
+    nlong = 0
     progs = [prepare(run, it, random.Random("%d/m%d" % (run.seed, pi)), pi) for pi, it in enumerate(items)]
     strings = set()
     for p in progs:
@@ -203,6 +204,10 @@ def main(run):
                 step = max(1.0, len(rest) / float(room))
                 keep += [rest[int(j * step)] for j in range(min(room, len(rest)))]
             hs = keep
+        # beyond the exhaustive bound: seeded walks of 4-7 actions from every initial file (validated like the others)
+        wr = random.Random("%d/walk16/%d" % (run.seed, progs.index(p)))
+        hs = list(hs) + [(wr.randrange(len(p["inits"]) + 1), [wr.randrange(len(p["acts"])) + 1 for _ in range(wr.randint(4, 7))]) for _ in range(nwalk)]
+        nlong += nwalk
         p["traces"] = [replay(run, p, f0, h, j) for j, (f0, h) in enumerate(hs)]
         total += len(hs)
         for tr in p["traces"]:
@@ -213,6 +218,7 @@ def main(run):
                     {"exception", tr["exception"].split(":")[0]} | {w.split(" ")[-1] for w in tr["where"]},
                 )
     run.add("evaluations", total)
+    run.cov["long_walks"] = nlong
     with open(path, "w") as f:
         json.dump({"tab": tab, "maxlen": maxlen, "progs": payload(True)}, f)
     res2 = run_tlc("MC_Menu16Check", "MC_Menu16Check.cfg", run, env={"MENU_DATA": path}, workers=16, timeout=3000, tag="m16c")
